@@ -21,7 +21,7 @@ M("c01-rest-slice", "C01", "break", (H, "payload_b, buf_rest = buf_rest[: size -
 M("c01-loop-to-if", "C01", "break", (S, "            while data:\n                # 4.2.1", "            if data:\n                # 4.2.1"))
 M("c01-little-endian", "C01", "break", (H, 'struct.Struct("!HHIHHBBBB")', 'struct.Struct("<HHIHHBBBB")'))
 M("c01-truncation-guard-off-by-one", "C01", "break", (H, "        if len(buf_rest) < size - 8:", "        if len(buf_rest) < size - 9:"))
-M("c01-length-guard-le", "C01,C18", "break", (H, "        if size < 8:", "        if size <= 8:"))
+M("c01-length-guard-le", "C01", "break", (H, "        if size < 8:", "        if size <= 8:"))
 M("c01-twin-not-ge", "C01,C18,C20", "benign", (H, "        if size < 8:", "        if not size >= 8:"))
 M("c01-twin-join", "C01,C20", "benign", (H, "        return hdr + self.payload", '        return b"".join([hdr, self.payload])'))
 M("c01-twin-rename-locals", "C01,C18,C20", "benign", (H, "        parsed, buf_rest = _unpack(cls.__format, buf)\n        size, builder = cls._parse_header(parsed)\n        if len(buf_rest) < size - 8:", "        fields, buf_rest = _unpack(cls.__format, buf)\n        size, builder = cls._parse_header(fields)\n        if len(buf_rest) < size - 8:"))
@@ -86,3 +86,25 @@ M("c19-for-service-keeps-major", "C19", "break", (C, "            instance_id=se
 M("c19-subscribe-ignores-eventgroup", "C19", "break", (C, "        return entry.eventgroup_id in self.eventgroups", "        return True"))
 M("c19-offer-entry-options-swapped", "C19", "break", (C, "            minver_or_counter=self.minor_version,\n            options_1=tuple(self.options_1),", "            minver_or_counter=self.minor_version,\n            options_1=tuple(self.options_2),"))
 M("c19-twin-eq-form", "C19", "benign", (C, "        if self.service_id != other.service_id:\n            return False\n\n        if (\n            self.instance_id != 0xFFFF", "        if not (self.service_id == other.service_id):\n            return False\n\n        if (\n            self.instance_id != 0xFFFF"))
+
+# ---------------------------------------------------------------- C05 / C06 / C09 (event-loop ordering, TimedStore typestate)
+M("ord-reboot-fanout-deferred", "C06,C04", "break", (S, "        self.subscriber.reboot_detected(addr)\n        self.discovery.reboot_detected(addr)\n        self.announcer.reboot_detected(addr)", "        asyncio.get_event_loop().call_soon(self.subscriber.reboot_detected, addr)\n        asyncio.get_event_loop().call_soon(self.discovery.reboot_detected, addr)\n        asyncio.get_event_loop().call_soon(self.announcer.reboot_detected, addr)"))
+M("ord-expired-callback-deferred", "C05,C06,C09", "break", (S, "        # must be called immediately, see stop()\n        callback(entry, address)", "        asyncio.get_event_loop().call_soon(callback, entry, address)"))
+M("ord-bulk-callback-deferred", "C05,C06,C09", "break", (S, "            if handle:\n                handle.cancel()\n            callback(entry, address)", "            if handle:\n                handle.cancel()\n            asyncio.get_event_loop().call_soon(callback, entry, address)"))
+M("ord-watch-catchup-deferred", "C05", "break", (S, "                if service.matches_service(s):\n                    listener.service_offered(s, addr)", "                if service.matches_service(s):\n                    asyncio.get_event_loop().call_soon(listener.service_offered, s, addr)"))
+M("ord-unwatch-only-deferred", "C05", "break", (S, "                if service.matches_service(s):\n                    listener.service_stopped(s, addr)", "                if service.matches_service(s):\n                    asyncio.get_event_loop().call_soon(listener.service_stopped, s, addr)"))
+M("ts-no-cancel-on-refresh", "C09", "break", (S, "            if old_timeout_handle:\n                old_timeout_handle.cancel()", "            pass"))
+M("ts-no-cancel-on-stop", "C09", "break", (S, "        if _timeout_handle:\n            _timeout_handle.cancel()\n", ""))
+M("ts-ttl-scaled", "C09", "break", (S, "                ttl, self._expired, address, entry", "                ttl * 1000, self._expired, address, entry"))
+M("ts-forever-armed", "C09", "break", (S, "        if ttl != TTL_FOREVER:", "        if ttl != 0:"))
+M("ts-handle-not-stored", "C09", "break", (S, "        self.store[address][entry] = (callback_expired, timeout_handle)", "        self.store[address][entry] = (callback_expired, None)"))
+M("ts-twin-forever-lt", "C09,C05,C06", "benign", (S, "        if ttl != TTL_FOREVER:", "        if ttl < TTL_FOREVER:"))
+M("ts-no-callback-new", "C06,C05", "break", (S, "            callback_new(entry, address)\n\n        timeout_handle = None", "            pass\n\n        timeout_handle = None"))
+M("ts-record-before-callback-new", "C06", "break",
+  (S, "        except KeyError:\n            # pop failed => new entry\n            callback_new(entry, address)\n\n        timeout_handle = None", "        except KeyError:\n            is_new = True\n        else:\n            is_new = False\n\n        timeout_handle = None"),
+  (S, "        self.store[address][entry] = (callback_expired, timeout_handle)\n", "        self.store[address][entry] = (callback_expired, timeout_handle)\n        if is_new:\n            callback_new(entry, address)\n"))
+M("sub-ttl-in-identity", "C06", "break", (S, "    ttl: int = dataclasses.field(compare=False)", "    ttl: int = dataclasses.field()"))
+M("sub-removed-by-findservice", "C06", "break", (S, "        if not matching_instances:\n            return\n", "        if not matching_instances:\n            return\n        for instance in matching_instances:\n            instance.subscriptions.stop_all_for_address(addr)\n"))
+M("disc-direct-stop-notify", "C05", "break", (S, "        if entry.ttl == 0:\n            self.service_offer_stopped(addr, entry)", "        if entry.ttl == 0:\n            self._notify_service_stopped(someip.config.Service.from_offer_entry(entry), addr)\n            self.service_offer_stopped(addr, entry)"))
+M("disc-catchup-by-matches-offer", "C05", "break", (S, "        self.watched_services[service].add(listener)\n\n        for addr, services in list(self.found_services.store.items()):\n            for s in list(services):\n                if service.matches_service(s):", "        self.watched_services[service].add(listener)\n\n        for addr, services in list(self.found_services.store.items()):\n            for s in list(services):\n                if service.matches_offer(s.create_offer_entry()):"))
+M("ord-twin-loop-fanout", "C05,C06,C07", "benign", (S, "        self.subscriber.reboot_detected(addr)\n        self.discovery.reboot_detected(addr)\n        self.announcer.reboot_detected(addr)", "        for part in (self.subscriber, self.discovery, self.announcer):\n            part.reboot_detected(addr)"))
